@@ -16,6 +16,7 @@ fn main() {
         "run" => {
             let noprelude = a.get(3).map(|s| s == "noprelude").unwrap_or(false);
             if noprelude { vm.get_database_mut().set_implicit_prelude(false); }
+            if std::env::var("NOOPT").is_ok() { vm.get_database_mut().set_optimize(false); }
             let r = vm.run_expr::<gv::vm::AnyValue>("probe", &src);
             match r {
                 Ok((v, t)) => println!("OK {:?} : {}", v, t),
